@@ -13,8 +13,8 @@ PROP = {
     ],
     "lanes": [
         native("c06"),
-        # one `cargo miri run` per seed; each runs a few tiny multi-threaded histories (~4 s each)
-        miri("c06", seeds_q=6, seeds_t=200, scale=100, args={"histories": {"quick": 3, "thorough": 3}}),
+        # one `cargo miri run` per seed; each runs a few tiny multi-threaded histories (~1.5 s each)
+        miri("c06", seeds_q=8, seeds_t=320, scale=100, args={"histories": {"quick": 4, "thorough": 6}}),
         # all three receiver flavours: tokio was quiet under TSan (-Zbuild-std) in this sandbox
         san("tsan", "c06", scale=10),
     ],
